@@ -478,6 +478,26 @@ impl VisitMut for TsEraser {
         n.readonly = false;
         n.visit_mut_children_with(self);
     }
+    fn visit_mut_simple_assign_target(&mut self, t: &mut SimpleAssignTarget) {
+        // `(x as T) = v`, `x! = v`: the wrapped expression is the target
+        loop {
+            let inner = match t {
+                SimpleAssignTarget::TsAs(TsAsExpr { expr, .. })
+                | SimpleAssignTarget::TsNonNull(TsNonNullExpr { expr, .. })
+                | SimpleAssignTarget::TsSatisfies(TsSatisfiesExpr { expr, .. })
+                | SimpleAssignTarget::TsTypeAssertion(TsTypeAssertion { expr, .. })
+                | SimpleAssignTarget::Paren(ParenExpr { expr, .. }) => {
+                    std::mem::replace(&mut **expr, Expr::Invalid(Invalid::default()))
+                }
+                _ => break,
+            };
+            match SimpleAssignTarget::try_from(Box::new(inner)) {
+                Ok(nt) => *t = nt,
+                Err(_) => break,
+            }
+        }
+        t.visit_mut_children_with(self);
+    }
     fn visit_mut_expr(&mut self, e: &mut Expr) {
         loop {
             match e {
